@@ -88,6 +88,8 @@ pub fn check(tier: Tier) -> Check {
     }
     // the re-sent packets through a transport that takes them in pieces (gathering vectored writes)
     parts.push(Part::new("C17/resume", json!({"depth": tier.pick(4, 5), "expiry": 1000, "secs_ago": 10, "wmode": "explore"}), tier.pick(1, 2), tier.pick(15, 300)));
+    // the new connection announces a Maximum Packet Size below the packets to re-send
+    parts.push(Part::new("C17/resume", json!({"depth": tier.pick(4, 5), "expiry": 1000, "secs_ago": 10, "m2": 12}), 0, tier.pick(15, 300)));
     // many unfinished handshakes at the loss (17 .. 300)
     parts.push(Part::new("C17/bulk", json!({}), 0, 120));
     // two losses in a row: the session is resumed on a second and then on a third connection
